@@ -97,6 +97,11 @@ func (x *Exec) callValue(st *State, in ssa.Instruction, c *ssa.CallCommon, fnv *
 		x.builtin(st, in, c, strings.TrimPrefix(fnv.Fn.FnName, "builtin:"), args, k)
 		return
 	}
+	if fnv.K == KFunc && fnv.Fn.FnName == "lib:noop" {
+		// e.g. the cancel function returned by context.WithTimeout: no modelled effect
+		k(st, x.freshResults(st, sig, "noop"))
+		return
+	}
 	if fnv.K == KFunc && fnv.Fn.Fn != nil {
 		callee := fnv.Fn.Fn.(*ssa.Function)
 		x.callStatic(st, in, callee, fnv.Fn.Binds, args, k)
